@@ -514,7 +514,17 @@ func (w *World) literalOf(v ssa.Value) *literal {
 			al, _ = x.X.(*ssa.Alloc)
 		}
 	}
+	if vv, isV := v.(*virtVal); isV && al == nil && strings.HasPrefix(vv.k, "&alloc:") {
+		// a helper's value that stands for an object of the caller: the object itself
+		al = w.allocByLoc(vv.k[1:])
+	}
 	if al == nil {
+		// a write-once field of a context object (txn.fiveTuple), a forwarded parameter
+		if rv := stripIface(w.resolveLoad(v)); rv != v {
+			if _, isAl := rv.(*ssa.Alloc); isAl {
+				return w.literalOf(rv)
+			}
+		}
 		return w.literalThroughHelper(v)
 	}
 	lit := &literal{alloc: al, fields: map[string]ssa.Value{}}
